@@ -336,9 +336,11 @@ def emit(index):
             mn, mx = c['min'], c['max']
             top = (mx if mx is not None else (mn or 0) + 1) + 1
             ks = sorted({k for k in [0, (mn or 0) - 1, mn or 0, mx if mx is not None else top, top] if 0 <= k <= 4})
+            # 4 scalars only through a few patterns (256 patterns per case would dominate the thorough tier)
+            four = [(1, 1, 1, 1), (2, 2, 2, 2), (1, 2, 3, 4), (4, 4, 4, 4), (2, 1, 1, 1), (1, 1, 1, 3)]
             o = lambda v: f'Some({v})' if v is not None else 'None'
             for k in ks:
-                for w in width_seqs(k):
+                for w in (width_seqs(k) if k < 4 else four):
                     quick = k == 0 or len(set(w)) == 1 or w in [(2, 1), (1, 2), (3, 4), (1, 2, 3), (2, 2, 1), (4, 1, 1)] + [tuple([2] * (k - 1) + [1])]
                     h(f'e2_sc_{cid}_{wname(w)}', f'|s| bodies::str_constrained::<{T}, _>(s, {o(mn)}, {o(mx)}, {rs_widths(w)})', ['C05', 'C11'],
                       f'string newtype minLength={mn} maxLength={mx}: every string of {k} scalar values with UTF-8 widths {wname(w)}: accepted iff {mn} <= {k} <= {mx}; all conversions agree',
